@@ -568,3 +568,57 @@ def run(ctx):  # noqa: F811
     from .refusal import refusal_rule
     refusal_rule(ctx, "R27.12", ["nifty.cl.minimization.optimize_kl", "nifty.cl.minimization.config.optimize_kl_config"],
                  "the classic VI driver and the configuration layer that feeds it its options", floor=4)
+
+
+# ---------------------------------------------------------------------------------------------------------------- R27.13 / R27.14
+def r27_13(ctx, m):
+    R = "R27.13"
+    ctx.rule(R, "optimize_kl: module globals that mirror call arguments (_output_directory, _save_strategy - read by the reporting "
+                "helpers) are assigned on EVERY call, on every path before the iteration loop - a global that is set only when the "
+                "argument is given keeps the value of an earlier call, and a run without output directory writes into the old one", floor=2)
+    from ..util import cfg_of
+    fi = m.func("nifty.cl.minimization.optimize_kl", "optimize_kl")
+    ctx.saw_func(fi)
+    cfg = cfg_of(fi)
+    globs = set()
+    for z in ast.walk(fi.node):
+        if isinstance(z, ast.Global):
+            globs |= set(z.names)
+    loops = [n for n in cfg.nodes if n.kind == "for" and "range(" in src(n.ast.iter) and "total_iterations" in src(n.ast.iter)]
+    if not globs or not loops:
+        ctx.und(R, f"{fi.key}::module globals", f"globals {sorted(globs)}, main loop found: {bool(loops)}", fi)
+        return
+    dom = cfg.dominators()
+    lp = loops[-1]   # the main iteration loop is the last one over range(..., total_iterations)
+    for g in sorted(globs):
+        stores = [n for n in cfg.nodes if n.kind == "stmt" and isinstance(n.ast, ast.Assign) and any(src(t) == g for t in n.ast.targets)]
+        ok_ = any(s_.id in dom[lp.id] for s_ in stores)
+        ctx.check(R, f"{fi.key}::global `{g}` is assigned on every path to the iteration loop", ok_,
+                  "" if ok_ else f"assigned only under a condition (lines {[s_.lineno for s_ in stores]}): a later call keeps the earlier value", fi,
+                  stores[0].ast if stores else None)
+
+
+def r27_14(ctx, m):
+    R = "R27.14"
+    ctx.rule(R, "optimize_kl dry run: an iteration that is only checked still hands its (possibly re-labelled) position on - the branch "
+                "that `continue`s under dry_run re-binds the sample list from the current mean, as the real branches do, so the "
+                "transitions of later iterations see the domain they will see in the real run", floor=1)
+    fi = m.func("nifty.cl.minimization.optimize_kl", "optimize_kl")
+    ctx.saw_func(fi)
+    key = f"{fi.key}::dry-run branch updates the sample list before `continue`"
+    ifs = [st for st in ast.walk(fi.node) if isinstance(st, ast.If) and src(st.test) == "dry_run" and any(isinstance(b, ast.Continue) for b in st.body)]
+    if len(ifs) != 1:
+        ctx.und(R, key, f"{len(ifs)} dry-run branches ending in continue", fi)
+        return
+    body = ifs[0].body
+    upd = [b for b in body if isinstance(b, ast.Assign) and src(b.targets[0]) == "sl" and "mean" in src(b.value)]
+    ctx.check(R, key, bool(upd), src(upd[0]) if upd else "the sample list keeps its initial value for all checked iterations", fi, ifs[0])
+
+
+_run_c27f = run
+
+
+def run(ctx):  # noqa: F811
+    _run_c27f(ctx)
+    r27_13(ctx, ctx.model)
+    r27_14(ctx, ctx.model)
